@@ -63,9 +63,13 @@ pub fn program_body(prog: Program, input: Vec<i64>, src: SrcKind, cfg: JobCfg) -
                 }
             };
             let outs = build(s, &prog);
-            env.execute_blocking();
+            // whatever happens, look at what the sinks published
+            let r = std::panic::catch_unwind(std::panic::AssertUnwindSafe(|| env.execute_blocking()));
             for (i, o) in outs.into_iter().enumerate() {
                 log_sink(SINK_TAGS[i], host, o.get());
+            }
+            if let Err(p) = r {
+                std::panic::resume_unwind(p);
             }
         });
         let res = run_hosts(&cfg.layout, job);
@@ -210,9 +214,13 @@ pub fn program_body_probed(prog: Program, input: Vec<i64>, src: SrcKind, cfg: Jo
                 }
             };
             let outs = crate::program::build_probed(s, &prog);
-            env.execute_blocking();
+            // whatever happens, look at what the sinks published
+            let r = std::panic::catch_unwind(std::panic::AssertUnwindSafe(|| env.execute_blocking()));
             for (i, o) in outs.into_iter().enumerate() {
                 log_sink(SINK_TAGS[i], host, o.get());
+            }
+            if let Err(p) = r {
+                std::panic::resume_unwind(p);
             }
         });
         let res = run_hosts(&cfg.layout, job);
